@@ -135,7 +135,7 @@ def install (p : Params) (c : Clock) (r : Read) : Clock :=
     A missing read counts as a failed attempt (the driver reports it). -/
 def resyncLoop (p : Params) (lag : Nat) (c : Clock) : Nat → List Read → Nat → Clock × Bool × Nat
   | 0, _, used => ({ c with interval := c.interval * 2 }, false, used)
-  | n + 1, [], used => resyncLoop p lag c n [] used
+  | n + 1, [], used => resyncLoop p lag c n [] (used + 1)
   | n + 1, r :: rs, used =>
     if lagOk p lag r then (install p c r, true, used + 1) else resyncLoop p lag c n rs (used + 1)
 
